@@ -550,6 +550,12 @@ class J1939_22:
                 self._snd_buffer[buffer_hash]['deadline'] = time.time() + self.Timeout.Th
                 self.__job_thread_wakeup()
                 return
+            if self._snd_buffer[buffer_hash]['state'] != self.SendBufferState.WAITING_CTS:
+                # no CTS expected: broadcast session, segments still being sent or transfer already finished
+                return
+            if (segment_num < 1) or (segment_num > self._snd_buffer[buffer_hash]['num_segments']):
+                # the requested next segment does not exist: keep waiting for a valid CTS (T3 time-out aborts)
+                return
 
             num_segments_all = self._snd_buffer[buffer_hash]['num_segments']
             self._snd_buffer[buffer_hash]['next_packet_to_send'] = segment_num - 1
